@@ -164,7 +164,7 @@ class FindKey(Contract):
 class Update(Contract):
     target = "mappyfile.dictutils.update"
     cases = ["scalar:overwrite", "scalar:keep", "scalar:new-key:keep", "delete-marker", "delete-marker-absent", "nested-merge", "nested-new", "nested-delete",
-             "list-merge", "list-none-skips", "list-append", "list-delete-item", "list-item-emptied", "list-empty-item-kept", "root-delete", "untouched-keys"]
+             "list-merge", "list-none-skips", "list-append", "list-append-nested", "list-delete-item", "list-item-emptied", "list-empty-item-kept", "root-delete", "untouched-keys"]
     props = ("C18",)
     doc = "fixed shapes (one or two keys per level, lists of up to two dicts), symbolic values; both overwrite modes"
 
@@ -204,7 +204,13 @@ class Update(Contract):
             d2 = plain([("layers", [None, plain([("x", n)])])])
         elif case == "list-append":
             d1 = ciod(E, [("layers", [ciod(E, [("x", a0)])])])
-            d2 = plain([("layers", [None, plain([("x", n)])])])
+            E.__dict__["appended"] = plain([("x", n)])
+            d2 = plain([("layers", [None, E.__dict__["appended"]])])
+        elif case == "list-append-nested":
+            # the appended item has an object list of its own with a None placeholder and a __delete__ item
+            d1 = ciod(E, [("layers", [ciod(E, [("x", a0)])])])
+            E.__dict__["appended"] = plain([("x", n), ("classes", [None, plain([("y", b0)]), plain([("__delete__", True)])])])
+            d2 = plain([("layers", [None, E.__dict__["appended"]])])
         elif case == "list-delete-item":
             d1 = ciod(E, [("layers", [ciod(E, [("x", a0)]), ciod(E, [("x", b0)])])])
             d2 = plain([("layers", [plain([("__delete__", True)])])])
@@ -269,6 +275,16 @@ class Update(Contract):
         elif case == "list-append":
             l = d1["layers"]
             yield "extra-item-appended", len(l) == 2 and same(l[0], [("x", a0)]) and same(l[1], [("x", n)])
+            # the appended object is d1's own: were it the patch's dict, the next update of d1 would write into d2
+            yield "appended-item-not-shared-with-the-patch", len(l) == 2 and l[1] is not E.__dict__["appended"]
+        elif case == "list-append-nested":
+            l = d1["layers"]
+            ok = len(l) == 2 and same(l[0], [("x", a0)]) and l[1] is not E.__dict__["appended"] and len(ents(l[1])) == 2
+            yield "extra-item-appended-as-d1's-own", ok
+            if ok:
+                cl = ents(l[1])[1][1]
+                yield "appended-item-merged-like-any-other(None skips, __delete__ removes)", S.truthy(S.eq(ents(l[1])[0][1], n)) is True and \
+                    isinstance(cl, list) and len(cl) == 2 and same(cl[0], []) and same(cl[1], [("y", b0)])
         elif case == "list-delete-item":
             l = d1["layers"]
             yield "item-removed", len(l) == 1 and same(l[0], [("x", b0)])
